@@ -85,31 +85,31 @@ func writeEvidence(p *propDef, tier string, master uint64, recs []*runRec, enume
 		runSecs = 0.001
 	}
 	cov := map[string]any{
-		"evaluations":         len(recs),
-		"distinct_nontrivial": len(ntHashes),
-		"rule":                p.rule + " A run is non-trivial when its workload moved data in every scripted direction, at least one configured fault fired on in-flight state (faulty profiles), and the property's oracle evaluated at least one assertion; distinct = distinct event-order hashes (hash of every network event with its virtual time) among non-trivial runs.",
-		"samples":             samples,
-		"enumerated_cases":    enumerated,
-		"nontrivial_runs":     nontrivial,
-		"completed_runs":      completed,
-		"crashed_runs":        crashes,
-		"virtual_cap_hits":    capHits,
-		"distinct_schedules":  len(hashes),
-		"distinct_abstract_states": len(states),
-		"simulated_seconds":   float64(virtUs) / 1e6,
-		"network_events":      events,
+		"evaluations":                         len(recs),
+		"distinct_nontrivial":                 len(ntHashes),
+		"rule":                                p.rule + " A run is non-trivial when its workload moved data in every scripted direction, at least one configured fault fired on in-flight state (faulty profiles), and the property's oracle evaluated at least one assertion; distinct = distinct event-order hashes (hash of every network event with its virtual time) among non-trivial runs.",
+		"samples":                             samples,
+		"enumerated_cases":                    enumerated,
+		"nontrivial_runs":                     nontrivial,
+		"completed_runs":                      completed,
+		"crashed_runs":                        crashes,
+		"virtual_cap_hits":                    capHits,
+		"distinct_schedules":                  len(hashes),
+		"distinct_abstract_states":            len(states),
+		"simulated_seconds":                   float64(virtUs) / 1e6,
+		"network_events":                      events,
 		"segments_decoded_by_reference_codec": segs,
-		"oracle_assertions":   checks,
-		"runs_per_hour":       float64(len(recs)) / runSecs * 3600,
-		"fault_kinds_fired":   faults,
-		"reach_probes":        probes,
-		"profiles":            profiles,
-		"known_finding_hits":  knownHits,
-		"other_oracle_notes":  notes,
-		"harness_problems":    harness,
-		"components":          p.components,
-		"build_s":             buildS,
-		"workers":             workers(),
+		"oracle_assertions":                   checks,
+		"runs_per_hour":                       float64(len(recs)) / runSecs * 3600,
+		"fault_kinds_fired":                   faults,
+		"reach_probes":                        probes,
+		"profiles":                            profiles,
+		"known_finding_hits":                  knownHits,
+		"other_oracle_notes":                  notes,
+		"harness_problems":                    harness,
+		"components":                          p.components,
+		"build_s":                             buildS,
+		"workers":                             workers(),
 	}
 	if p.extra != nil {
 		p.extra(cov, recs)
